@@ -18,55 +18,10 @@ reproduce the original data.
 -/
 namespace CV.Chain
 
-/-- the `Cfg` seen by an entropy model whose `Probability` type has `B` bits -/
-def withB (c : Cfg) (B : Nat) : Cfg := { c with B := B }
-
 @[simp] theorem withB_W (c : Cfg) (B : Nat) : (withB c B).W = c.W := rfl
 @[simp] theorem withB_S (c : Cfg) (B : Nat) : (withB c B).S = c.S := rfl
 @[simp] theorem withB_P (c : Cfg) (B : Nat) : (withB c B).P = c.P := rfl
 @[simp] theorem withB_B (c : Cfg) (B : Nat) : (withB c B).B = B := rfl
-
-inductive Step (Sym : Type) where
-  /-- `decode_symbol(m)` with `m::Probability::BITS = B` -/
-  | dec (B : Nat) (m : Model Sym)
-  /-- `change_precision::<q>()` -/
-  | prec (q : Nat)
-
-/-- what a successful step leaves to be undone -/
-inductive Done (Sym : Type) where
-  | dec (B : Nat) (m : Model Sym) (s : Sym)
-  | prec (old : Nat)
-
-/-- run a schedule; `none` as soon as a step reports an error.  Returns the log (oldest
-    first), the final coder type and the coder. -/
-def runDec {Sym : Type} (c : Cfg) : List (Step Sym) → Coder → Option (List (Done Sym) × Cfg × Coder)
-  | [], x => some ([], c, x)
-  | .dec B m :: rest, x =>
-    match decode (withB c B) m x with
-    | .ok (s, y) =>
-      match runDec c rest y with
-      | some (l, c', z) => some (.dec B m s :: l, c', z)
-      | none => none
-    | .error _ => none
-  | .prec q :: rest, x =>
-    match changePrecision c q x with
-    | .ok y =>
-      match runDec (withP c q) rest y with
-      | some (l, c', z) => some (.prec c.P :: l, c', z)
-      | none => none
-    | .error _ => none
-
-/-- undo a log, first entry first (so pass the reversed log of `runDec`) -/
-def runUndo {Sym : Type} (c : Cfg) : List (Done Sym) → Coder → Option (Cfg × Coder)
-  | [], y => some (c, y)
-  | .dec B m s :: rest, y =>
-    match encode (withB c B) m s y with
-    | .ok z => runUndo c rest z
-    | .error _ => none
-  | .prec old :: rest, y =>
-    match changePrecision c old y with
-    | .ok z => runUndo (withP c old) rest z
-    | .error _ => none
 
 /-- every step of the schedule is allowed by the crate's static assertions, and every model
     is well-formed at the precision it is used with -/
@@ -94,6 +49,79 @@ theorem runUndo_append {Sym : Type} (c : Cfg) (a b : List (Done Sym)) (y : Coder
       cases changePrecision c old y with
       | ok z => exact ih _ z
       | error _ => rfl
+
+/-- the function the driver executes agrees with the subject of the theorems -/
+theorem runDec_eq_runDecE {Sym : Type} :
+    ∀ (steps : List (Step Sym)) (c : Cfg) (x : Coder),
+      runDec c steps x =
+        match (runDecE c steps x).2.2.2 with
+        | none => some ((runDecE c steps x).1, (runDecE c steps x).2.1, (runDecE c steps x).2.2.1)
+        | some _ => none := by
+  intro steps
+  induction steps with
+  | nil => intro c x; simp [runDec, runDecE]
+  | cons st rest ih =>
+    intro c x
+    cases st with
+    | dec B m =>
+      simp only [runDec, runDecE]
+      cases decode (withB c B) m x with
+      | error e => rfl
+      | ok r =>
+        obtain ⟨s, y⟩ := r
+        simp only [ih c y]
+        cases (runDecE c rest y).2.2.2 <;> rfl
+    | prec q =>
+      simp only [runDec, runDecE]
+      cases changePrecision c q x with
+      | error e => rfl
+      | ok y =>
+        simp only [ih (withP c q) y]
+        cases (runDecE (withP c q) rest y).2.2.2 <;> rfl
+
+theorem runUndo_eq_runUndoE {Sym : Type} :
+    ∀ (l : List (Done Sym)) (c : Cfg) (y : Coder),
+      runUndo c l y =
+        match (runUndoE c l y).2.2.2 with
+        | none => some ((runUndoE c l y).2.1, (runUndoE c l y).2.2.1)
+        | some _ => none := by
+  intro l
+  induction l with
+  | nil => intro c y; simp [runUndo, runUndoE]
+  | cons e rest ih =>
+    intro c y
+    cases e with
+    | dec B m s =>
+      simp only [runUndo, runUndoE]
+      cases encode (withB c B) m s y with
+      | error e => rfl
+      | ok z => simp only [ih c z]
+    | prec old =>
+      simp only [runUndo, runUndoE]
+      cases changePrecision c old y with
+      | error e => rfl
+      | ok z => simp only [ih (withP c old) z]
+
+/-- a completed `runUndoE` has undone every entry -/
+theorem runUndoE_count {Sym : Type} :
+    ∀ (l : List (Done Sym)) (c : Cfg) (y : Coder),
+      (runUndoE c l y).2.2.2 = none → (runUndoE c l y).1 = l.length := by
+  intro l
+  induction l with
+  | nil => intro c y _; rfl
+  | cons e rest ih =>
+    intro c y h
+    cases e with
+    | dec B m s =>
+      simp only [runUndoE] at h ⊢
+      cases hd : encode (withB c B) m s y with
+      | error e => simp [hd] at h
+      | ok z => simp only [hd] at h ⊢; simp [ih c z h]
+    | prec old =>
+      simp only [runUndoE] at h ⊢
+      cases hd : changePrecision c old y with
+      | error e => simp [hd] at h
+      | ok z => simp only [hd] at h ⊢; simp [ih _ z h]
 
 theorem inv_withB {c : Cfg} {B : Nat} {x : Coder} : Inv (withB c B) x ↔ Inv c x := Iff.rfl
 
